@@ -8,7 +8,9 @@
 (***************************************************************************)
 EXTENDS RuleSet, TLC, Json
 
-CONSTANT MaxRules
+CONSTANTS MaxRules,
+          PoolSel       \* "all": the rule pool below; "pairs": only its last four rules (two pairs of rules that are EQUAL as
+                        \* expressions under the library's notion of equality but not identical: 0.0 / -0.0, d1.0 / d1.00)
 VARIABLE c        \* [rules |-> sequence of pool indices, inp, fp]
 
 A == Ref(S("a"))
@@ -27,7 +29,12 @@ RulePool == <<
   Bin("sub", Val(VDur(DurMaxNs)), Val(VDur(DurMinNs))),          \* out of range (a panic here would lose every outcome)
   Bin("add", Val(VInt(I128Max)), A),
   \* two calls of the cacheable f whose arguments are long and differ only at their far end
-  VecE(<<Call(S("f"), A), Call(S("f"), Sym(S("l")))>>) >>
+  VecE(<<Call(S("f"), A), Call(S("f"), Sym(S("l")))>>),
+  Bin("div", Val(Fl(1, 1, 0)), Val(VFloat(FZero(1)))),          \* +inf
+  Bin("div", Val(Fl(1, 1, 0)), Val(VFloat(FZero(-1)))),         \* -inf: the same expression up to the sign of a zero
+  VecE(<<Val(Dc(10, 1)), Val(St("d1.0"))>>),
+  VecE(<<Val(Dc(100, 2)), Val(St("d1.00"))>>) >>
+PoolIdx == IF PoolSel = "pairs" THEN (Len(RulePool) - 3)..Len(RulePool) ELSE 1..(Len(RulePool) - 4)
 LongStr(n, last) == VStr([i \in 1..n |-> IF i = n THEN 48 + last ELSE 97 + (i % 7)])
 
 Inputs == << VMap(<< <<S("a"), I(1)>> >>), VMap(<< <<S("a"), I(2)>>, <<S("zz"), I(5)>> >>), I(7), VNone, VMap(<< <<S("a"), VNone>> >>),
@@ -48,7 +55,7 @@ Input == Inputs[c.inp]
 
 Init == c \in {[rules |-> <<>>, inp |-> i, fp |-> p] : i \in 1..Len(Inputs), p \in 1..Len(Patterns)}
 Next == /\ Len(c.rules) < MaxRules
-        /\ \E r \in 1..Len(RulePool) : c' = [c EXCEPT !.rules = Append(@, r)]
+        /\ \E r \in PoolIdx : c' = [c EXCEPT !.rules = Append(@, r)]
 
 Run == RunEval(RS, StartEval(RS, Input), InitGs(RS), 1)
 
